@@ -736,6 +736,57 @@ def rule_r14(repo, run, T):
                                       "unset converter value)" % (bad, name, shown), "shroud/whelpers.py",
                                       sample=dict(helper=hk, caller=name, test=shown, error_returns=errs))
     run.floor(R, "helpers whose failure value is tested by a statement entry", n, 6)
+    # helper calling helper: `ierr = {__helper}(item, &v); if (ierr == 0) {...error...}` - the callee is one of the
+    # helper's dependent helpers; its error returns must make that test true as well
+    k = 0
+    for key, h in sorted(helpers.items()):
+        deps = [d for dep in h.get("dependent_helpers", []) or [] for d in match_helper(str(dep), helpers)]
+        for kk, src in tables.helper_sources(h):
+            flat = re.sub(r"\s+", " ", src)
+            for m in re.finditer(r"(\w+) = (\{__helper\}|\{PY_helper_prefix\}\w+|SHROUD_\w+) ?\(([^;]*?)\); if \( ?(!?) ?\1 ?(?:(==|!=|<|>|<=|>=) ?(-?\d+))? ?\)", flat):
+                callee, neg, op, kval = m.group(2), m.group(4), m.group(5), m.group(6)
+                if op is None:
+                    fails = (lambda v: v == 0) if neg else (lambda v: v != 0)
+                else:
+                    kv = int(kval)
+                    fails = {"==": lambda v: v == kv, "!=": lambda v: v != kv, "<": lambda v: v < kv, ">": lambda v: v > kv,
+                             "<=": lambda v: v <= kv, ">=": lambda v: v >= kv}[op]
+                shown = "%s%s %s %s" % (neg, m.group(1), op or "", kval or "")
+                if callee == "{__helper}":
+                    cands = deps
+                else:
+                    cands = [d for d in helpers if callee.endswith(d)]
+                for d in cands:
+                    k += 1
+                    for kk2, src2 in tables.helper_sources(helpers[d]):
+                        errs = _error_returns(src2)
+                        if not errs:
+                            continue
+                        bad = sorted(set(v for v in errs if not fails(v)))
+                        run.check(R, "whelpers.CHelpers[%s].%s:callee-status[%s]" % (key, kk, d), not bad,
+                                  "the helper tests the status of %s with `%s`, but %s reports failure by returning %s: a "
+                                  "failed element conversion is not noticed (the library is called with stale data and an "
+                                  "exception pending)" % (d, shown.strip(), d, bad), "shroud/whelpers.py",
+                                  sample=dict(helper=key, callee=d, test=shown.strip()))
+    run.floor(R, "helper-to-helper status tests", k, 1)
+
+
+def rule_r15(repo, run, T):
+    R = run.rule("C03.R15", "what is handed back: the format unit and the arguments of a returned value come from the same "
+                            "typemap pair, and the default intent of an argument (which decides whether it is handed back at "
+                            "all) follows the shared table (C02.R9)")
+    wp = repo.module("wrapp")
+    io = wp.func("Wrapp.intent_out")
+    got = pat.find(io, "build_format = MV_A or MV_B")
+    ok = len(got) == 1 and got[0][1]["A"].endswith(".PY_build_format") and got[0][1]["B"].endswith(".PY_format")
+    va = pat.find(io, "vargs = MV_T.PY_build_arg")
+    run.check(R, "wrapp.Wrapp.intent_out:build-format-pair", ok and len(va) == 1,
+              "Py_BuildValue arguments are taken from PY_build_arg, so the unit must be PY_build_format when the typemap has one "
+              "(PY_format only as fallback): with the operands the other way round std::string is built with \"s\" from "
+              "(data, size) and every later value of the tuple is read from the wrong slot", wp.loc(io))
+    from checks import c02
+    from sa.report import import_rules
+    import_rules(run, R, c02, repo, {"C02.R9"})
 
 
 def run(repo, run, tier):
@@ -757,4 +808,5 @@ def run(repo, run, tier):
     rule_r12(repo, run, T)
     rule_r13(repo, run, T)
     rule_r14(repo, run, T)
+    rule_r15(repo, run, T)
     run.assumptions.append("LP64 sizes; CPython PyArg_Parse / Py_BuildValue unit table in the checker")
